@@ -119,6 +119,8 @@ def run_campaign(pid, p, eng, binp, tier, seed, scratch, exclude):
                 cmd += ["--enum", str(cfg["enum"])]
             if cfg.get("budget"):
                 cmd += ["--budget", str(cfg["budget"])]
+            if eng.get("only"):
+                cmd += ["--only", eng["only"]]
         else:
             cmd = [binp] + [str(a).replace("{out}", out).replace("{seed}", str(seed * 1000 + i)).replace("{i}", str(i))
                             .replace("{procs}", str(procs)).replace("{verif}", VERIF) for a in cfg["args"]]
